@@ -249,12 +249,17 @@ deriving Repr, DecidableEq
 structure XS where
   q : Q
   remaining : List Bytes
-  /-- the driver's ring `tail..head` of (token, chunk), oldest first -/
+  /-- the driver's occupied slots: (token, chunk) of every chunk added and not yet popped, in
+  submission order (the Rust code keeps them in arbitrary array slots; only membership matters) -/
   ring : List (Nat × Bytes)
   script : List Act
   delivered : List Delivered := []
   submitted : Nat := 0
   maxOut : Nat := 0
+  /-- `result`: the first failure; once set nothing more is submitted, outstanding chunks are drained -/
+  failed : Option Err := none
+  /-- ghost: the chunks submitted so far, in submission order -/
+  sent : List Bytes := []
 deriving Repr
 
 def statusBytes (status : Nat) : Bytes := le32 status ++ le32 0
@@ -284,39 +289,48 @@ deriving Repr, DecidableEq
 /-- status word the driver reads back: device-written bytes, then poison -/
 def effStatus (written : Bytes) : Nat := fieldAt (written ++ List.replicate 8 POISON) 0 4
 
-/-- one iteration of the `loop` in `pcm_xfer`; `some r` = the function returns `r` -/
+/-- `VirtQueue::peek_used` -/
+def peekUsed (q : Q) : Option Nat := q.used.head?.map (·.chain.tok)
+
+/-- the add phase of one iteration of the `loop` in `pcm_xfer` -/
+def xferAdd (stream : Nat) (x : XS) : XS :=
+  if x.failed.isNone ∧ availableDesc x.q ≥ 3 then
+    match x.remaining with
+    | c :: rest =>
+      match add x.q [encXferHdr stream, c] [8] with
+      | .error e => { x with remaining := rest, failed := some (.q e) }
+      | .ok (q', tok) =>
+        let ring := x.ring ++ [(tok, c)]
+        { x with q := q', remaining := rest, ring := ring, submitted := x.submitted + 1,
+                 maxOut := max x.maxOut ring.length, sent := x.sent ++ [c] }
+    | [] => x
+  else x
+
+/-- the result `pcm_xfer` returns once nothing is outstanding -/
+def xferResult (x : XS) : XRes :=
+  match x.failed with
+  | none => .ok
+  | some e => .err e
+
+/-- one iteration of the `loop` in `pcm_xfer` (after repair F15: failures are remembered, outstanding
+chunks are always drained, completions are matched to their slot by token, so any completion order
+is accepted); `some r` = the function returns `r` -/
 def xferIter (stream : Nat) (x : XS) : XS × Option XRes :=
-  -- add phase
-  let addPhase : XS × Option XRes :=
-    if availableDesc x.q ≥ 3 then
-      match x.remaining with
-      | c :: rest =>
-        match add x.q [encXferHdr stream, c] [8] with
+  let x := xferAdd stream x
+  if x.ring.isEmpty ∧ (x.failed.isSome ∨ x.remaining.isEmpty) then (x, some (xferResult x))
+  else
+    match peekUsed x.q with
+    | none => (deviceStep x, none)
+    | some tok =>
+      match x.ring.find? (·.1 == tok) with
+      | none => (x, some (.err (.q .wrongToken)))
+      | some slot =>
+        match popUsed x.q tok with
         | .error e => (x, some (.err (.q e)))
-        | .ok (q', tok) =>
-          let ring := x.ring ++ [(tok, c)]
-          ({ x with q := q', remaining := rest, ring := ring, submitted := x.submitted + 1,
-                    maxOut := max x.maxOut ring.length }, none)
-      | [] => if x.ring.length % QUEUE_SIZE = 0 then (x, some .ok) else (x, none)
-    else (x, none)
-  match addPhase with
-  | (x, some r) => (x, some r)
-  | (x, none) =>
-    -- pop phase
-    let popPhase : XS × Option XRes :=
-      if canPop x.q then
-        match x.ring with
-        | [] => (x, some .panic)
-        | (tok, _) :: rest =>
-          match popUsed x.q tok with
-          | .error e => (x, some (.err (.q e)))
-          | .ok (q', u) =>
-            if effStatus u.written ≠ S_OK then ({ x with q := q' , ring := rest }, some (.err .ioError))
-            else ({ x with q := q', ring := rest }, none)
-      else (x, none)
-    match popPhase with
-    | (x, some r) => (x, some r)
-    | (x, none) => (deviceStep x, none)
+        | .ok (q', u) =>
+          (deviceStep { x with q := q', ring := x.ring.erase slot,
+                               failed := if x.failed.isNone ∧ effStatus u.written ≠ S_OK then some .ioError else x.failed },
+           none)
 
 def xferLoop (stream : Nat) : Nat → XS → XS × XRes
   | 0, x => (x, .fuel)
